@@ -39,11 +39,15 @@ func c01(c *Ctx) {
 		}
 		c.Case("corpus:"+line, true, "corpus")
 	}
+	var tieCand []l4Case
 	run := func(tc l4Case, kind string, sub bool) {
 		f, ok := tc.tree()
 		if !ok {
 			st.unparseable++
 			return
+		}
+		if (len(tieCand) < 800 || c.Thorough() && len(tieCand) < 6000) && len(tc.Src) < 200 && !tc.Simplify && tc.Opts == l4DefaultOpts {
+			tieCand = append(tieCand, tc)
 		}
 		sh := shapeOf(f)
 		c.Case(tc.witness("file"), len(f.Stmts) >= 2 || len(sh.types) > 6, "lang="+tc.Lang.String(), "opts="+tc.Opts.class(), "src="+kind, "simplify="+b01(tc.Simplify))
@@ -66,7 +70,7 @@ func c01(c *Ctx) {
 	}
 	// 2. repo seeds × variants
 	seeds := repoSeeds()
-	nOpt := 2
+	nOpt := 1
 	if c.Thorough() {
 		nOpt = 6
 	}
@@ -85,7 +89,7 @@ func c01(c *Ctx) {
 				tc.Opts = randOpts(c.R, false)
 				tc.Simplify = c.R.Chance(25)
 				tc.Comments = c.R.Chance(70)
-				run(tc, "seed", k == 0)
+				run(tc, "seed", k == 0 && c.Thorough())
 			}
 		}
 	}
@@ -101,6 +105,8 @@ func c01(c *Ctx) {
 		}
 		run(tc, kind, c.R.Chance(50))
 	}
+	// correspondence with the Lean L4 model (fragment F0)
+	l4Tie(c, c.N/4+50, tieCand, true)
 	st.export(c)
 }
 
